@@ -117,7 +117,9 @@ func c05Excluded(pat, path string) bool {
 	switch pat {
 	case "":
 		return false
-	case "dir":
+	case "dir": // gitignore-style: a directory of that name at ANY depth
+		return strings.HasPrefix(path, "dir/") || strings.Contains(path, "/dir/")
+	case "/dir": // anchored: the top-level directory only
 		return strings.HasPrefix(path, "dir/")
 	case "*.dat":
 		return strings.HasSuffix(path, ".dat")
